@@ -7,7 +7,8 @@ from checks import c02
 ID = "C03"
 LEAN_MODULE = "Ctrmml.Properties.C03"
 THEOREMS = ["C03_break_offset", "C03_jump_target", "C03_finish_last", "C03_stream_ends_with_terminator",
-            "C03_codec_never_reads_outside_partial", "C03_codec_never_reads_outside_segno_partial"]
+            "C03_codec_never_reads_outside_partial", "C03_codec_never_reads_outside_loops_partial",
+            "C03_codec_never_reads_outside_segno_partial"]
 LEVEL = "proof"
 STREAM = "conv.seq"
 CHUNK = 100
